@@ -7,7 +7,7 @@ from vf import q, qlist, clist, cbool, cnat, copt, frac, fr_json
 ID = 'C11'
 COQ_DIR = 'C11'
 COQ_HEADER = 'From V Require Import Common.Num C11.Model.\nOpen Scope Q_scope.'
-RULE = ('(0) structured families that make state kept between calls matter: phase streams ms[phase] with used views around a new indexer of the MultiStream (phases setter, package reset, unlink, added phases) (20); Stream.reset_flow with a new phase and flows / totals in every unit (12); single-phase streams with cached views adopted by MultiStream.from_streams, then T/P changed through either side (12); package changes (persistent, or reset-and-restore) to a package with the chemicals at other positions or with other Chemical objects at the same positions, around name-keyed accesses and volumetric totals (18); every unit string x every view through the views\' own get_data/set_data after the unit was converted legitimately elsewhere (24); a view written with another view as the value between streams / phases at different T, P, phase (24); F_vol / volumetric totals re-read after material moved between phases at unchanged overall composition (16); (a) 40 link scenarios in quick (5 per flag subset, all 8 subsets of link_with(flow, phase, TP)) between single-phase streams in different phases with ivol/imass reads, writes and get_flow on both sides in both orders before and after the link; (b) histories of 4-16 operations over a store of 2-3 streams (single-phase Stream and MultiStream, two property packages '
+RULE = ('(000) MultiStream.reset_flow (empty, phases setter, groups of flows per phase label in every unit, total) on MultiStreams with used views and phase streams, and Stream.empty (24); (00) copy_like between streams of different property packages, single- and multi-phase on either side, incl. a chemical the receiver lacks (24); (0) structured families that make state kept between calls matter: phase streams ms[phase] with used views around a new indexer of the MultiStream (phases setter, package reset, unlink, added phases) (20); Stream.reset_flow with a new phase and flows / totals in every unit (12); single-phase streams with cached views adopted by MultiStream.from_streams, then T/P changed through either side (12); package changes (persistent, or reset-and-restore) to a package with the chemicals at other positions or with other Chemical objects at the same positions, around name-keyed accesses and volumetric totals (18); every unit string x every view through the views\' own get_data/set_data after the unit was converted legitimately elsewhere (24); a view written with another view as the value between streams / phases at different T, P, phase (24); F_vol / volumetric totals re-read after material moved between phases at unchanged overall composition (16); (a) 40 link scenarios in quick (5 per flag subset, all 8 subsets of link_with(flow, phase, TP)) between single-phase streams in different phases with ivol/imass reads, writes and get_flow on both sides in both orders before and after the link; (b) histories of 4-16 operations over a store of 2-3 streams (single-phase Stream and MultiStream, two property packages '
         'of stub chemicals whose molar volume is an injective dyadic function of (chemical, phase, T, P)): reads of the '
         'mol/mass/vol views and totals, get_flow/get_total_flow in 8 units + 3 wrong-dimension units, writes through every view '
         '(imol/imass/ivol item, set_flow, set_total_flow, F_mol/F_mass/F_vol setters), interleaved with T/P/phase/phases setters, '
@@ -26,13 +26,14 @@ ASSUMPTIONS = [
     'what a name -> position dict of MaterialIndexer._index_caches[(phases, chemicals)] holds is C10\'s subject: the model keeps WHICH dict the molar indexer of each stream consults and lets that dict answer for its own (phases, chemicals)',
     'phase streams (ms[phase], and the streams adopted by MultiStream.from_streams) are ordinary streams of the store registered in the MultiStream\'s _streams dict; the model re-creates their indexers where the MultiStream gets a new MaterialIndexer (phases setter, _reset_thermo), forgets them when it becomes single-phase and renews their property memo in reset_cache; that a phase stream keeps seeing the parent\'s row after other operations (liveness) is C12\'s subject',
     'streams related by proxy() (one shared indexer object) are outside this model (C13/C14); each stream owns its indexer',
-    'outside the modelled domain (C12/C13 own them; the model answers XDomain and the harness skips them): link_with / copy_like between streams of different property packages, flow-linking MultiStreams with different phase tuples, copy_like between MultiStreams with different phase sets, expanding the phases of a MultiStream whose data is linked, phases setters that drop or relabel a non-empty phase; a package reset that drops a chemical with non-zero flow; ms[phase] phase views',
+    'outside the modelled domain (C12/C13 own them; the model answers XDomain and the harness skips them): link_with between streams of different property packages (copy_like across packages IS modelled), flow-linking MultiStreams with different phase tuples, copy_like between MultiStreams with different phase sets, expanding the phases of a MultiStream whose data is linked, phases setters that drop or relabel a non-empty phase; a package reset that drops a chemical with non-zero flow; ms[phase] phase views; MultiStream.reset_flow that leaves fewer than two phases',
     'F_vol reads the mixture molar volume through the stream property memo (_get_property): the memo of the one property these histories read (V) is part of the model (key = phase(s), T, P, normalised composition per phase; reset_cache call sites), for streams that are not proxies of each other; the ideal mixture rule V = sum z_i V_i is used',
 ]
 TRUSTED = ['model coq/C11/Model.v is hand-written from thermosteam/indexer.py (by_mass, by_volume, reset_chemicals, copy_like, '
            '_expand_phases, to_material_indexer, to_chemical_indexer), base/dictionary_view.py, _stream.py and '
-           '_multi_stream.py (views, totals, get/set_flow, link_with, unlink, copy_like, _reset_thermo, phase/phases setters, '
-           '__getitem__); tie = correspondence check',
+           '_multi_stream.py (views, totals, get/set_flow, link_with, unlink, copy_like incl. other packages (index_overlap), '
+           '_reset_thermo, phase/phases setters, __getitem__, Stream.empty, Stream.reset_flow, MultiStream.reset_flow as the '
+           'composition empty / phases setter / set_flow per phase label / set_total_flow); tie = correspondence check',
            'the harness resolves chemical IDs / phase labels to positions with the real objects before the model runs (key lookup is C10\'s)']
 
 PH = {'g': 1, 'l': 2, 's': 3, 'L': 4, 'S': 5}
@@ -112,12 +113,24 @@ def gen_stream(rng):
 
 OPKINDS = (['read'] * 5 + ['F'] * 2 + ['get_flow'] * 3 + ['get_total'] * 2 + ['set'] * 6 + ['set_flow'] * 4 + ['set_total'] * 2
            + ['setF'] * 2 + ['T'] * 3 + ['P'] * 2 + ['phase'] * 4 + ['phases'] * 3 + ['link'] * 4 + ['unlink'] * 3
-           + ['copy_like'] * 3 + ['thermo'] * 2 + ['rtrip'] * 1 + ['alias'] * 2 + ['get_data'] * 3 + ['set_data'] * 2 + ['assign'] * 3 + ['copy_row'] * 2 + ['from_streams'] * 2 + ['sub'] * 3 + ['reset_flow'] * 3)
+           + ['copy_like'] * 3 + ['thermo'] * 2 + ['rtrip'] * 1 + ['alias'] * 2 + ['get_data'] * 3 + ['set_data'] * 2 + ['assign'] * 3 + ['copy_row'] * 2 + ['from_streams'] * 2 + ['sub'] * 3 + ['reset_flow'] * 3 + ['empty'] * 1 + ['reset_flow_m'] * 3)
 
 def gen_reset_flow_op(rng, i):
     chems = rng.sample(['A_', 'B_', 'C_'], rng.choice([0, 1, 2, 2, 3]))
     return ['reset_flow', i, rng.choice([None, 'l', 'g', 's', 'g', 'l']), rng.choice([None, None] + list(range(8)) + [5, 6, 7, 8]),
             rng.choice([None, None, float(rng.choice(VALS[1:7])), 0.0]), [[c, float(rng.choice(VALS[1:7]))] for c in chems]]
+
+def gen_reset_flow_m_op(rng, i):
+    """MultiStream.reset_flow(total_flow, units, phases, **phase_flows): groups of flows for distinct phase labels (mostly
+    among the phases asked for, sometimes the other case of a label or a missing phase), every unit incl. wrong dimensions"""
+    labels = rng.sample(['g', 'l', 's', 'L'], rng.choice([0, 1, 1, 2, 2, 3]))
+    pf = [[p, [[c, float(rng.choice(VALS[1:7]))] for c in rng.sample(['A_', 'B_', 'C_'], rng.choice([1, 1, 2, 3]))]] for p in labels]
+    k = rng.random()
+    if k < 0.45: phases = None
+    elif k < 0.85: phases = sorted(set(labels) | set(rng.sample(['g', 'l', 's', 'L'], rng.choice([1, 2]))))
+    else: phases = sorted(rng.sample(['g', 'l', 's', 'L'], rng.choice([2, 3])))
+    u = rng.randrange(len(UNITS)) if rng.random() < 0.1 else rng.randrange(8)
+    return ['reset_flow_m', i, rng.choice([None, None, float(rng.choice(VALS[1:7])), 0.0]), u, phases, pf]
 
 def gen_op(rng):
     k = rng.choice(OPKINDS)
@@ -152,6 +165,8 @@ def gen_op(rng):
     if k == 'from_streams': return [k, i, [rng.randrange(64) for _ in range(rng.choice([1, 2, 2, 3]))]]
     if k == 'sub': return [k, i, ph]
     if k == 'reset_flow': return gen_reset_flow_op(rng, i)
+    if k == 'empty': return [k, i]
+    if k == 'reset_flow_m': return gen_reset_flow_m_op(rng, i)
     raise ValueError(k)
 
 def gen_units_case(rng, u, view):
@@ -340,6 +355,75 @@ def gen_resetflow_case(rng):
         ops.append(rng.choice([['read', i, 'vol'], ['F', i, 'vol'], ['get_total', i, rng.choice([5, 6, 7])], ['read', i, 'mol']]))
     return {'streams': streams, 'ops': ops}
 
+def gen_resetflow_m_case(rng):
+    """MultiStream.reset_flow on a MultiStream whose views (and the views of its phase streams ms[phase]) were used: the
+    call empties the data, goes through the phases setter (new indexer when the phases change), writes the groups of
+    flows in the given unit and the total; read back in the same unit through the MultiStream and the phase streams"""
+    pkg = rng.choice([0, 0, 1, 2])
+    n = len(PKGS[pkg])
+    def row():
+        r = [float(rng.choice([0, 1, 2, F(1, 2), 3, 8])) for _ in range(n)]
+        if pkg == 1: r[2] = 0.
+        return r
+    phases = sorted(rng.sample(['g', 'l', 's', 'L'], rng.choice([2, 2, 3])))
+    streams = [{'kind': 'M', 'pkg': pkg, 'phases': phases, 'T': rng.choice(TS[:4]), 'P': rng.choice(PS[:3]), 'flow': [row() for _ in phases]},
+               gen_stream(rng)]
+    ops = []
+    nk = 0
+    if rng.random() < 0.5:
+        for r in rng.sample(range(len(phases)), rng.randint(1, len(phases))):
+            ops.append(['sub', 0, r]); nk += 1
+    who = lambda: rng.choice([0] + [2 + c for c in range(nk)])
+    for _ in range(rng.randint(0, 2)):
+        ops.append(rng.choice([['read', who(), 'vol'], ['read', who(), 'mass'], ['F', 0, 'vol'], ['get_total', 0, rng.choice([5, 6, 7])]]))
+    for _ in range(rng.randint(1, 2)):
+        op = gen_reset_flow_m_op(rng, 0)
+        if rng.random() < 0.6: op[3] = rng.choice([5, 6, 7, 2, 3, 0])
+        ops.append(op)
+        x = who()
+        ops.append(rng.choice([['read', x, 'vol'], ['F', x, 'vol'], ['get_total', 0, op[3]], ['read', 0, 'mass'],
+                               ['get_flow', 0, op[3], rng.randrange(4), rng.choice(PKGS[pkg][:2])]]))
+        if rng.random() < 0.4:
+            ops.append(rng.choice([['T', 0, rng.choice(TS)], ['empty', who()], ['set', who(), 'vol', rng.randrange(4), rng.choice(PKGS[pkg][:2]), float(rng.choice(VALS[1:7]))]]))
+    ops += [['read', x, 'vol'] for x in range(2 + nk)]
+    return {'streams': streams, 'ops': ops}
+
+def gen_xcopy_case(rng):
+    """copy_like between streams of DIFFERENT property packages (other positions of the chemicals, other Chemical objects
+    with the same CAS numbers, a chemical the receiver lacks -> UndefinedChemicalAlias after the receiver was emptied),
+    single- and multi-phase on either side, with the receiver's mass / volumetric views cached before; afterwards every
+    view is read and written through again"""
+    a, b = rng.choice([(0, 1), (1, 0), (0, 2), (2, 0), (2, 1), (1, 2)])
+    def row(pkg):
+        r = [float(rng.choice([0, 1, 2, F(1, 2), 3, 8])) for _ in range(len(PKGS[pkg]))]
+        if pkg == 1 and rng.random() < 0.7: r[2] = 0.       # D_ exists in package 1 only
+        return r
+    def st(pkg):
+        T, P = rng.choice(TS[:4]), rng.choice(PS[:3])
+        if rng.random() < 0.5:
+            return {'kind': 'S', 'pkg': pkg, 'phase': rng.choice(['l', 'g', 's', 'L']), 'T': T, 'P': P, 'flow': row(pkg)}
+        phases = sorted(rng.sample(['g', 'l', 's', 'L'], rng.choice([2, 2, 3])))
+        return {'kind': 'M', 'pkg': pkg, 'phases': phases, 'T': T, 'P': P, 'flow': [row(pkg) for _ in phases]}
+    streams = [st(a), st(b)]
+    if streams[0]['kind'] == 'M' and streams[1]['kind'] == 'M' and rng.random() < 0.8:
+        streams[1]['phases'] = list(streams[0]['phases']); streams[1]['flow'] = [row(b) for _ in streams[1]['phases']]
+    if rng.random() < 0.3: streams.append(gen_stream(rng))
+    chem = lambda: rng.choice(['A_', 'B_', 'C_'])
+    def touch(i):
+        k = rng.random()
+        view = rng.choice(['vol', 'vol', 'mass'])
+        if k < 0.4: return ['read', i, view]
+        if k < 0.6: return ['set', i, view, rng.randrange(4), chem(), float(rng.choice(VALS[1:7]))]
+        if k < 0.8: return ['get_flow', i, rng.choice([5, 6, 7, 2, 3]), rng.randrange(4), chem()]
+        return rng.choice([['F', i, 'vol'], ['get_total', i, rng.choice([2, 5, 6])]])
+    ops = [touch(x) for x in rng.sample([0, 1], rng.choice([0, 1, 2]))]
+    ops.append(['copy_like', 0, 1])
+    ops += [touch(0), touch(1), ['read', 0, 'mass']]
+    if rng.random() < 0.5:
+        ops += [rng.choice([['T', 1, rng.choice(TS)], ['set', 1, 'mol', rng.randrange(4), chem(), float(rng.choice(VALS[1:7]))]]),
+                ['copy_like', 1, 0] if rng.random() < 0.5 else ['copy_like', 0, 1], touch(0), touch(1)]
+    return {'streams': streams, 'ops': ops}
+
 def gen_link_case(rng, flags):
     """partial/full link between two single-phase streams of one package that are in DIFFERENT phases, with view reads and
     writes on both sides in both orders around it (the cached views must follow the flags exactly)"""
@@ -399,6 +483,10 @@ def gen_cases(rng, tier):
         cases.append(gen_sub_case(rng))
     for _ in range(12 if tier == 'quick' else 200):
         cases.append(gen_resetflow_case(rng))
+    for _ in range(24 if tier == 'quick' else 400):
+        cases.append(gen_xcopy_case(rng))
+    for _ in range(24 if tier == 'quick' else 400):
+        cases.append(gen_resetflow_m_case(rng))
     for _ in range(n):
         streams = [gen_stream(rng) for _ in range(rng.choice([2, 2, 3]))]
         ops = [gen_op(rng) for _ in range(rng.randint(4, 16))]
@@ -531,6 +619,20 @@ def apply_op(store, op):
         res = ['reset_flow', i, op[2], op[3], op[4], cols]
         return res, run(lambda: s.reset_flow(phase=op[2], units=None if op[3] is None else UNITS[op[3]], total_flow=op[4],
                                              **{c: v for c, v in op[5]}))
+    if k == 'empty':
+        res = ['empty', i]
+        return res, run(lambda: s.empty())
+    if k == 'reset_flow_m':
+        if not is_multi(s):
+            return ['skip'], None
+        labels = [p for p, _ in op[5]]
+        eff = set(op[4]) if op[4] is not None else set(labels) | {'l', 'g'}
+        if len(eff) < 2 or len(set(labels)) != len(labels):
+            return ['skip'], None           # the stream would become single-phase half-way: C12's domain
+        pf = [[p, [[PKGS[pkg_of(s)].index(c), v] for c, v in fl]] for p, fl in op[5]]
+        res = ['reset_flow_m', i, op[2], op[3], None if op[4] is None else list(op[4]), pf]
+        return res, run(lambda: s.reset_flow(total_flow=op[2], units=UNITS[op[3]], phases=None if op[4] is None else tuple(op[4]),
+                                             **{p: [(c, v) for c, v in fl] for p, fl in op[5]}))
     if k == 'from_streams':
         idx = [i] + [j % n for j in op[2]]
         ss = [store[x] for x in idx]
@@ -605,8 +707,6 @@ def apply_op(store, op):
     if k == 'copy_like':
         j = op[2] % n
         o = store[j]
-        if pkg_of(s) != pkg_of(o):
-            return ['skip'], None
         if is_multi(o) and is_multi(s) and set(s._imol._phases) != set(o._imol._phases):
             return ['skip'], None           # positional copy after expansion: C13's domain
         if is_multi(s) and not is_multi(o) and o.phase not in s._imol._phase_indexer \
@@ -720,6 +820,11 @@ def cop(o):
     if k == 'copy_row': return f'(OCopyRow {cnat(o[1])} {VIEW[o[2]]} {cnat(o[3])} {cnat(o[4])})'
     if k == 'from_streams': return f'(OFromStreams {clist([o[1]] + list(o[2]), cnat)})'
     if k == 'sub': return f'(OSub {cnat(o[1])} {cnat(o[2])})'
+    if k == 'empty': return f'(OEmpty {cnat(o[1])})'
+    if k == 'reset_flow_m':
+        one = lambda cv: f'({cnat(cv[0])}, {q(cv[1])})'
+        pf = clist(o[5], lambda g: f'({cph(g[0])}, {clist(g[1], one)})')
+        return f'(OResetFlowM {cnat(o[1])} {copt(o[2], q)} {cnat(o[3])} {copt(o[4], lambda l: clist(l, cph))} {pf})'
     if k == 'reset_flow':
         fl = clist(o[5], lambda cv: f'({cnat(cv[0])}, {q(cv[1])})')
         return f'(OResetFlow {cnat(o[1])} {copt(o[2], cph)} {copt(o[3], cnat)} {copt(o[4], q)} {fl})'
@@ -766,8 +871,8 @@ def coq_case(case, out):
 def coq_show(case, out):
     return f'(show_case {cutab()} {clist(case["streams"], cinit)} {clist(out["ops"], cop)})'
 
-STRUCT = ('T', 'P', 'phase', 'phases', 'link', 'unlink', 'copy_like', 'thermo', 'rtrip', 'from_streams', 'sub', 'reset_flow')
-WRITES = ('set', 'set_flow', 'set_total', 'setF', 'set_data', 'assign', 'copy_row', 'reset_flow')
+STRUCT = ('T', 'P', 'phase', 'phases', 'link', 'unlink', 'copy_like', 'thermo', 'rtrip', 'from_streams', 'sub', 'reset_flow', 'reset_flow_m')
+WRITES = ('set', 'set_flow', 'set_total', 'setF', 'set_data', 'assign', 'copy_row', 'reset_flow', 'reset_flow_m', 'empty')
 def nontrivial(case, out):
     ok = [o[0] for o, b in zip(out.get('ops', []), out.get('obs', [])) if not (isinstance(b, str))]
     return any(k in STRUCT for k in ok) and any(k in WRITES for k in ok)
@@ -847,6 +952,11 @@ def oracle(case):
             d = np.asarray(s._imol.data.to_array(), float).reshape(-1)
             before = d / d.sum() if d.sum() else None
         want = None
+        lacks = False
+        if k == 'copy_like':    # the source holds a chemical (by CAS) that the receiver's package lacks: copy_like must refuse
+            o_ = store[op[2] % len(store)]
+            d_ = np.asarray(o_._imol.data.to_array(), float).reshape(-1, o_._imol._chemicals.size)
+            lacks = any(d_[:, c_].any() and ch_.CAS not in s._imol._chemicals._index for c_, ch_ in enumerate(o_._imol._chemicals))
         try:            # the value about to be written through a view, when it is itself a view
             if k == 'assign':
                 o = store[op[2] % len(store)]
@@ -876,12 +986,23 @@ def oracle(case):
                     return f'{where}: i{op[2]}.{k} in {UNITS[op[3]]} raised {type(ex).__name__}: {ex}'
                 if type(ex).__name__ != 'DimensionalityError':
                     return f'{where}: wrong-dimension unit {UNITS[op[3]]} for i{op[2]} raised {type(ex).__name__}, not DimensionalityError'
+            if k == 'empty':
+                return f'{where}: raised {type(ex).__name__}: {ex}'
+            if k == 'reset_flow_m':
+                nm = type(ex).__name__
+                eff_ = set(op[4]) if op[4] is not None else {p for p, _ in op[5]} | {'l', 'g'}
+                legit = (nm == 'DimensionError' and e['utab'][op[3]][1] is None and (op[5] or op[2])) \
+                    or (nm == 'UndefinedPhase' and any(p not in eff_ and p.swapcase() not in eff_ for p, _ in op[5])) \
+                    or (nm == 'AttributeError' and op[2] and not op[5])
+                if not legit:
+                    return f'{where}: MultiStream.reset_flow raised {nm}: {ex}'
             if k in ('assign', 'copy_row', 'sub') or (k == 'from_streams' and type(ex).__name__ != 'ValueError'):
                 return f'{where}: raised {type(ex).__name__}: {ex}'
             if k in ('read', 'F', 'alias', 'get_flow', 'get_total'):
                 if not (k in ('get_flow', 'get_total') and e['utab'][op[2]][1] is None):
                     return f'{where}: reading raised {type(ex).__name__}: {ex}'
-            if k in ('unlink', 'copy_like', 'phases', 'phase', 'thermo', 'rtrip') and 'locked' not in str(ex):
+            if k in ('unlink', 'copy_like', 'phases', 'phase', 'thermo', 'rtrip') and 'locked' not in str(ex) \
+                    and not (k == 'copy_like' and type(ex).__name__ == 'UndefinedChemicalAlias' and lacks):
                 return f'{where}: raised {type(ex).__name__}: {ex}'
             res = None
         if res is not None and res[0] != 'skip':
@@ -915,6 +1036,29 @@ def oracle(case):
                             got = s.get_flow(uname, c_)
                             if not close(got, op[4] * v_ / tot_):
                                 return f'{where}: reset_flow: composition written in {uname} not kept: {c_} is {got}, expected {op[4] * v_ / tot_}'
+            if k == 'empty' and np.asarray(s._imol.data.to_array(), float).any():
+                return f'{where}: empty() left flows behind'
+            if k == 'reset_flow_m':
+                uname = UNITS[op[3]]
+                if e['utab'][op[3]][1] is None and (op[5] or op[2]):
+                    return f'{where}: wrong-dimension unit {uname} was accepted by MultiStream.reset_flow'
+                want_ph = set(op[4]) if op[4] is not None else {p for p, _ in op[5]} | {'l', 'g'}
+                if set(s.phases) != want_ph: return f'{where}: MultiStream.reset_flow(phases={op[4]}) left the phases {s.phases}'
+                vals = {(p, c_): v_ for p, fl in op[5] for c_, v_ in fl}
+                if any(p not in s.phases for p, _ in op[5]):
+                    vals = {}       # a label answered by its other case: two groups may share one row, no per-flow read-back
+                if vals and not op[2]:
+                    for (p, c_), v_ in vals.items():
+                        got = s.get_flow(uname, (p, c_))
+                        if not close(got, v_): return f'{where}: MultiStream.reset_flow wrote {v_} {uname} of {c_} in phase {p!r}, get_flow gives {got}'
+                if op[2]:
+                    got = s.get_total_flow(uname)
+                    if not close(got, op[2]): return f'{where}: MultiStream.reset_flow(total_flow={op[2]} {uname}), get_total_flow gives {got}'
+                    tot_ = sum(vals.values())
+                    for (p, c_), v_ in vals.items():
+                        got = s.get_flow(uname, (p, c_))
+                        if not close(got, op[2] * v_ / tot_):
+                            return f'{where}: MultiStream.reset_flow: composition written in {uname} not kept: ({p},{c_}) is {got}, expected {op[2] * v_ / tot_}'
             if k == 'assign' and want is not None:
                 got = np.asarray(getattr(s, op[3]).to_array(), float)
                 if not all(close(a, b) for a, b in zip(got, want)):
